@@ -662,6 +662,12 @@ static unsigned char utf16_literal_to_utf8(const unsigned char * const input_poi
     /* get the first utf16 sequence */
     first_code = parse_hex4(first_sequence + 2);
 
+    /* \u0000 cannot be carried by the zero terminated strings used here: everything behind it would silently be cut off */
+    if (first_code == 0)
+    {
+        goto fail;
+    }
+
     /* check that the code is valid */
     if (((first_code >= 0xDC00) && (first_code <= 0xDFFF)))
     {
